@@ -2,8 +2,11 @@ package main
 
 import (
 	"fmt"
+	"go/ast"
 	"go/types"
 	"regexp"
+	"sort"
+	"strings"
 )
 
 // R-import-declare: every declaration an import makes is clash-checked.
@@ -22,7 +25,42 @@ func ruleImportDeclare(c *Ctx) []Obligation {
 	if len(members) == 0 {
 		return []Obligation{{Key: "anchor|import functions", Status: Undecided, Detail: "no analyzer method returns a struct with fields ToImport and FromModule"}}
 	}
-	declRe := regexp.MustCompile(`^analyzer\.Module\.add[A-Z]\w*$`)
+	// the declaration methods, by role: methods of Module with a result that store into a map reached through the receiver
+	var declNames []string
+	{
+		p := c.Pkg("homescript/analyzer")
+		for _, fd := range AllFuncDecls(p) {
+			if fd.Recv == nil || recvTypeName(fd.Recv.List[0].Type) != "Module" || fd.Type.Results == nil || len(fd.Type.Results.List) == 0 {
+				continue
+			}
+			f := r2sibFuncOf(c, p, fd)
+			stores := false
+			ast.Inspect(fd.Body, func(n ast.Node) bool {
+				if as, ok := n.(*ast.AssignStmt); ok {
+					for _, l := range as.Lhs {
+						if ix, ok := l.(*ast.IndexExpr); ok {
+							if tv, ok := f.info.Types[ix.X]; ok && tv.Type != nil {
+								if _, isMap := tv.Type.Underlying().(*types.Map); isMap && strings.HasPrefix(f.norm(ix.X), "self.") {
+									stores = true
+								}
+							}
+						}
+					}
+				}
+				return true
+			})
+			if stores {
+				if fn, ok := p.TypesInfo.Defs[fd.Name].(*types.Func); ok {
+					declNames = append(declNames, regexp.QuoteMeta(r2sibQualName(fn)))
+				}
+			}
+		}
+	}
+	if len(declNames) == 0 {
+		return []Obligation{{Key: "anchor|declaration methods", Status: Undecided, Detail: "no Module method stores into a receiver map and returns the previous holder"}}
+	}
+	sort.Strings(declNames)
+	declRe := regexp.MustCompile(`^(` + strings.Join(declNames, "|") + `)$`)
 	var out []Obligation
 	for _, m := range members {
 		f := r2sibFuncOf(c, m.Pkg, m.Fd)
